@@ -160,14 +160,45 @@ class Rig:
     def _tparms(self, parm):
         return {k: (v if k == "calcRate" else tv(v, self.salt)) for k, v in self._parms(parm).items()}
 
-    def setparm(self, parm):
-        self.c.parm.update(**self._tparms(parm))
+    PATHS = ("update", "change", "item", "data", "value")
 
-    def update(self, stamp, i, r, sp):
+    @staticmethod
+    def write(share, fields, how):
+        """every way a share's fields get written: stamping update(), non-stamping change(), item assignment,
+        attribute on .data, and (single field 'value') the .value property"""
+        if how == "update":
+            share.update(**fields)
+        elif how == "change":
+            share.change(**fields)
+        elif how == "item":
+            for k, v in fields.items():
+                share[k] = v
+        elif how == "data":
+            for k, v in fields.items():
+                setattr(share.data, k, v)
+        else:
+            (k, v), = fields.items()
+            setattr(share, k, v)
+
+    def setparm(self, parm, meta=None):
+        """bring the parm share to `parm`, writing only the fields that differ, by the path meta['how'];
+        meta['at'] first moves the store clock (so that a stamping update() can carry the stamp of the next action)"""
+        meta = meta or {}
+        if "at" in meta:
+            self.store.stamp = tv(dec(meta["at"]), self.salt)
+        new = self._tparms(parm)
+        cur = dict(self.c.parm.items())
+        diff = {k: v for k, v in new.items() if not (k in cur and type(cur[k]) is type(v) and (cur[k] == v or (v != v and cur[k] != cur[k])))}
+        how = meta.get("how", "update")
+        if diff or how == "update":
+            self.write(self.c.parm, diff, how if how != "value" else "update")
+
+    def update(self, stamp, i, r, sp, via=None):
+        via = via or ("value", "value", "value")
         self.store.stamp = tv(stamp, self.salt)   # what changeStamp() does to the attribute the doer reads (None allowed)
-        self.c.input.value = tv(i, self.salt)
-        self.c.rate.value = tv(r, self.salt)
-        self.c.rsp.value = tv(sp, self.salt)
+        self.write(self.c.input, {"value": tv(i, self.salt)}, via[0])
+        self.write(self.c.rate, {"value": tv(r, self.salt)}, via[1])
+        self.write(self.c.rsp, {"value": tv(sp, self.salt)}, via[2])
         self.c.action()
 
     def state(self):
@@ -189,12 +220,12 @@ def run_ops(rig, parm, ops):
     for op in ops:
         try:
             if op[0] == "upd":
-                rig.update(*[dec(x) for x in op[1:5]])
+                rig.update(*[dec(x) for x in op[1:5]], via=(op[5] if len(op) > 5 else None))
             elif op[0] == "restart":
                 rig.c.restart()
             elif op[0] == "parm":
                 parm = op[1]
-                rig.setparm(parm)
+                rig.setparm(parm, op[2] if len(op) > 2 else None)
                 out.append("ok")
                 continue
             out.append(" ".join(q(v) for v in rig.state()))
@@ -220,7 +251,9 @@ class CHECK(core.Check):
     N_SEARCH = 1500
     RULE = ("a case = one parm set (gains, wrap, drsp, calcRate, ordered limits; finite, +-inf, occasionally nan gains) and "
             "a history of 1..30 operations: action() at a given store stamp (increasing by dyadic or decimal steps, "
-            "sometimes repeated/backwards/None) with input / rate / set-point values (about a third of the cases 'mixed': "
+            "sometimes repeated/backwards/None; parameters incl. limits rewritten between actions by update() at an "
+            "advanced or the same store stamp, change(), item assignment or attribute on .data; signals and set point "
+            "written by update/change/item/.data/.value) with input / rate / set-point values (about a third of the cases 'mixed': "
             "integral stamps, signals, gains and limits below 2**20 are handed over as int or bool instead of float; "
             "results compared as exact rationals; a quarter of the cases 'typed': ints, bools, Fractions (thirds, tenths) "
             "and floats mixed freely in stamps, signals, gains, wrap and limits, run against the typed model) (random walks, jumps, jitter below "
@@ -245,7 +278,8 @@ class CHECK(core.Check):
                  "the history) + differential correspondence with a binary64 instantiation")
     LEVEL_TEXT = ("Full proofs on the model for EVERY arithmetic (so also for IEEE binary64) and every value incl. NaN/inf: "
                   "C46_clamp_in_range, C46_output_within_limits, C46_errorsum_within_limits (each evaluated action), "
-                  "C46_limits_after_evaluation and C46_limits_always_partial (every history), "
+                  "C46_limits_after_evaluation and C46_limits_always_partial (every history), C46_limits_in_force (parameters "
+                  "rewritten at will between actions: the limits the parm share holds at that action), "
                   "C46_setpoint_jump_resets_integrator, C46_small_setpoint_change_ignored, C46_unevaluated_update_keeps_shares; "
                   "exact arithmetic: C46_error_is_wrap2 (+ range/congruence from C43); binary64 arithmetic: "
                   "C46_error_within_wrap_binary64; C46_never_raises (_exact, _binary64).")
@@ -296,7 +330,23 @@ class CHECK(core.Check):
                  esmax=esmax, esmin=esmin, ovmax=ovmax, ovmin=ovmin)
         return {k: (bool(v) if k == "calcRate" else enc(v)) for k, v in p.items()}
 
+    def _newparm(self, rng, cur, sp):
+        """a rewritten parm share: some of gains / wrap / drsp / calcRate and, half of the time, the limits"""
+        p2 = self._parm(rng, sp)
+        keep = ["esmax", "esmin", "ovmax", "ovmin"] if rng.random() < 0.5 else []
+        if rng.random() < 0.5:              # only a few fields
+            keys = rng.sample(PKEYS, rng.randrange(1, 4))
+            if "esmin" in keys or "esmax" in keys:
+                keys += ["esmin", "esmax"]
+            if "ovmin" in keys or "ovmax" in keys:
+                keys += ["ovmin", "ovmax"]
+            keep = [k for k in PKEYS if k not in keys or k in keep]
+        for k in keep:
+            p2[k] = cur[k]
+        return p2
+
     def _history(self, rng, parm, n, sp=0.04):
+        cur = parm
         ops = []
         t = rng.choice([0.0, 0.0, 1.0, 10.5, None])
         dt = rng.choice([0.125, 0.5, 0.0625, 0.1, 0.1, 1.0, 0.3])
@@ -309,10 +359,8 @@ class CHECK(core.Check):
                 ops.append(["restart"])
                 continue
             if r < 0.07:
-                p2 = self._parm(rng, sp)
-                for k in ("esmax", "esmin", "ovmax", "ovmin"):
-                    p2[k] = parm[k]
-                ops.append(["parm", p2])
+                cur = self._newparm(rng, cur, sp)
+                ops.append(["parm", cur, {"how": rng.choice(["update", "update", "change", "item", "data"])}])
                 continue
             # time
             r = rng.random()
@@ -342,7 +390,18 @@ class CHECK(core.Check):
             xi = x if rng.random() >= sp else rng.choice([float("nan"), float("inf"), float("-inf")])
             spi = setp if rng.random() >= sp / 2 else rng.choice([float("nan"), float("inf"), float("-inf")])
             rate = self._num(rng, 3.0, sp)
-            ops.append(["upd", enc(stamp), enc(xi), enc(rate), enc(spi)])
+            # parameter writes around the action: before it with the clock already at the action's stamp (a stamping
+            # update() then carries exactly that stamp), and after it with the clock still there
+            if stamp is not None and rng.random() < 0.12:
+                cur = self._newparm(rng, cur, sp)
+                ops.append(["parm", cur, {"how": rng.choice(Rig.PATHS[:4]), "at": enc(stamp)}])
+            upd = ["upd", enc(stamp), enc(xi), enc(rate), enc(spi)]
+            if rng.random() < 0.3:
+                upd.append([rng.choice(Rig.PATHS) for _ in range(3)])
+            ops.append(upd)
+            if rng.random() < 0.12:
+                cur = self._newparm(rng, cur, sp)
+                ops.append(["parm", cur, {"how": rng.choice(Rig.PATHS[:4])}])
         return ops
 
     def _tval(self, rng, scale=20):
@@ -413,9 +472,9 @@ class CHECK(core.Check):
         ops = []
         for op in c["ops"]:
             if op[0] == "upd":
-                ops.append(["upd"] + [rnd(x) for x in op[1:5]])
+                ops.append(["upd"] + [rnd(x) for x in op[1:5]] + op[5:])
             elif op[0] == "parm":
-                ops.append(["parm", rp(op[1])])
+                ops.append(["parm", rp(op[1])] + [dict(m, **({"at": rnd(m["at"])} if "at" in m else {})) for m in op[2:]])
             else:
                 ops.append(op)
         return dict(c, parm=rp(c["parm"]), ops=ops)
@@ -435,6 +494,22 @@ class CHECK(core.Check):
                 for ss in itertools.product(sps, repeat=L):
                     ops = [["upd", enc(0.5 * k), xs[k], enc(0.25), ss[k]] for k in range(L)]
                     yield {"parm": p, "ops": [["upd", enc(-0.5), enc(10.0), enc(0.0), enc(20.0)]] + ops}
+        # parameters rewritten between actions by every write path, at an advanced and at the SAME store stamp:
+        # every action must use the contents (limits, gains, wrap, drsp) current at that action
+        tight = dict(base, ovmax=enc(2.0), ovmin=enc(-2.0), esmax=enc(0.5), esmin=enc(-0.5))
+        wrapped = dict(base, wrap=enc(0.0), gpe=enc(1.0), ovmax=enc(500.0), ovmin=enc(-500.0))
+        nodead = dict(base, drsp=enc(50.0), gff=enc(1.0), gpe=enc(0.0))
+        for first in ("update", "change", "item", "data"):
+            for second in ("update", "change", "item", "data"):
+                for alt in (tight, wrapped, nodead):
+                    for same in (True, False):
+                        yield {"parm": base, "ops": [
+                            ["upd", enc(0.0), enc(10.0), enc(0.0), enc(20.0)],
+                            ["parm", dict(base, gpe=enc(4.0)), {"how": first, "at": enc(1.0)}],
+                            ["upd", enc(1.0), enc(350.0), enc(0.0), enc(20.0)],
+                            ["parm", alt, dict({"how": second}, **({} if same else {"at": enc(1.5)}))],
+                            ["upd", enc(2.0), enc(300.0), enc(0.0), enc(-100.0), [second if second != "data" else "value"] * 3],
+                            ["upd", enc(3.0), enc(100.0), enc(0.0), enc(-100.0)]]}
         # the same family with integral stamps and values handed over as int / bool (two hash salts)
         ivals = [enc(10.0), enc(350.0), enc(1.0)]
         isps = [enc(20.0), enc(0.0), enc(-170.0)]
@@ -476,14 +551,21 @@ class CHECK(core.Check):
                 r.append("restart")
             elif op[0] == "parm":
                 r.append(self._parmline(op[1]))
+        # the region predicate of D46a for every parm set of the history (limits may change): asked last
+        for op in c["ops"]:
+            if op[0] == "parm":
+                r += [self._parmline(op[1]), "region"]
         return r
 
     def model_post(self, c, replies):
         r = list(replies)
-        self._region[core.case_key(c)] = (r[2] == "1")
         if c.get("kind") == "typed":
+            self._region[core.case_key(c)] = (r[2] == "1")
             return r[5:]
-        return r[3:]
+        nparm = sum(1 for op in c["ops"] if op[0] == "parm")
+        tail = r[len(r) - 2 * nparm:] if nparm else []
+        self._region[core.case_key(c)] = (r[2] == "1") or any(x == "1" for x in tail[1::2])
+        return r[3:len(r) - 2 * nparm]
 
     # ------------------------------------------------------------------ property oracle
     def oracle(self, c, out):
@@ -535,17 +617,25 @@ class CHECK(core.Check):
         if len(out) != len(c["ops"]):
             return "wrong number of results"
         # (1) limits, checked on what the implementation left in the shares after every operation
+        # The limits in force are those of the parm share at the time of the action.  After the limits were
+        # rewritten the old values may lie outside the new range until the next evaluated action re-clamps them.
         prev = None
+        wait_o = wait_es = False
         for k, (op, line) in enumerate(zip(c["ops"], out)):
             if op[0] == "parm":
-                P = Rig._parms(op[1])
+                P2 = Rig._parms(op[1])
+                wait_o = wait_o or (P2["ovmin"], P2["ovmax"]) != (P["ovmin"], P["ovmax"])
+                wait_es = wait_es or (P2["esmin"], P2["esmax"]) != (P["esmin"], P["esmax"])
+                P = P2
                 continue
             if line.startswith("ERR"):
                 return "operation %d raised %s" % (k, line)
             lapse, elapsed, prsp, e, er, es, o = [unq(x) for x in line.split()]
-            if not (P["ovmin"] <= o <= P["ovmax"]):
+            if op[0] == "upd" and lapse > 0:
+                wait_o = wait_es = False
+            if not wait_o and not (P["ovmin"] <= o <= P["ovmax"]):
                 return "after operation %d (%s) output %s is outside [ovmin, ovmax] = [%s, %s]" % (k, op[0], float(o), P["ovmin"], P["ovmax"])
-            if not (P["esmin"] <= es <= P["esmax"]):
+            if not wait_es and not (P["esmin"] <= es <= P["esmax"]):
                 return "after operation %d (%s) errorSum %s is outside [esmin, esmax] = [%s, %s]" % (k, op[0], float(es), P["esmin"], P["esmax"])
             if op[0] == "upd" and prev is not None:
                 why = self._update_clauses(k, op, P, prev, (lapse, elapsed, prsp, e, er, es, o))
@@ -596,7 +686,7 @@ class CHECK(core.Check):
         for k, op in enumerate(c["ops"]):
             if op[0] == "parm":
                 parm = op[1]
-                rig.setparm(parm)
+                rig.setparm(parm, op[2] if len(op) > 2 else None)
                 continue
             if op[0] == "restart":
                 rig.c.restart()
@@ -615,7 +705,7 @@ class CHECK(core.Check):
                     if a != b:
                         return ("operation %d: set point jumped from %s to %s (> drsp) but the result depends on the "
                                 "previous errorSum: errorSum/output %s vs %s when it is perturbed" % (k, rig.c.prsp.value, sp, a[5:], b[5:]))
-                rig.update(*args)
+                rig.update(*args, via=(op[5] if len(op) > 5 else None))
             except ZeroDivisionError:
                 return "operation %d raised ZeroDivisionError" % k
         return None
@@ -626,8 +716,7 @@ class CHECK(core.Check):
             return False
         key = core.case_key(c)
         if key not in self._region:
-            r = core.Driver(self.ENGINE).run(self.requests(c)[:3])
-            self._region[key] = (r[2] == "1")
+            self.model([c])                 # fills self._region (model_post)
         return self._region[key]
 
     @staticmethod
